@@ -97,6 +97,18 @@ class Report:
             self.bad(rule, site, construct, detail, **extra)
         return cond
 
+    def form(self, ok, rule, site, construct, detail="", wrong=None, nontrivial=True, **extra):
+        """An expression / shape compared with its verified form.  A mismatch is a violation only when the discrepancy
+        can be named (`wrong`: unit error, wrong provenance, missing guard ...); otherwise it is undecided."""
+        if ok:
+            self.ok(rule, site, construct, detail, nontrivial, **extra)
+        elif wrong:
+            self.bad(rule, site, construct, (detail + "; " if detail else "") + wrong, **extra)
+        else:
+            self.unk(rule, site, construct, (detail + "; " if detail else "") +
+                     "not the verified form and no discrepancy that the rule can name: equivalence undecided (N5)", **extra)
+        return ok
+
     def analysed(self, *fns):
         self.functions.update(fns)
 
